@@ -23,9 +23,10 @@ from ..tlc import MachineryError, run_tlc
 
 # (cfg, maximum number of files replayed or None = all)
 CFG = {
-    "quick": [("ReaderQuickTree.cfg", None), ("ReaderQuickContent.cfg", None)],
-    "thorough": [("ReaderQuickTree.cfg", None), ("ReaderQuickContent.cfg", None), ("ReaderTree3.cfg", None),
-                 ("ReaderClasses.cfg", 900), ("ReaderContent.cfg", 700)],
+    "quick": [("ReaderQuickTree.cfg", None), ("ReaderQuickContent.cfg", None), ("ReaderQuickClasses.cfg", None)],
+    "thorough": [("ReaderQuickTree.cfg", None), ("ReaderQuickContent.cfg", None), ("ReaderQuickClasses.cfg", None),
+                 ("ReaderTree3.cfg", None),
+                 ("ReaderClasses.cfg", 600), ("ReaderContent.cfg", 500)],
 }
 FINDING_ROOT = "root-rebuild-reparents-nested-group"
 KINDS = ["pattr", "flat", "rootlink", "entry", "eattr", "typelink", "childcont", "childlink", "dataset",
